@@ -278,6 +278,18 @@ inline LD meshMeshDist(const WMesh& A, const WMesh& B) {
     }
     return best;
 }
+// is any pair of triangles closer than eps (or crossing)?
+inline bool meshesWithin(const WMesh& A, const WMesh& B, LD eps) {
+    if (norm(A.cen - B.cen) - A.rad - B.rad > eps) return false;
+    for (const Tri& a : A.t) {
+        if (norm(a.cen - B.cen) - a.rad - B.rad > eps) continue;
+        for (const Tri& b : B.t) {
+            if (norm(a.cen - b.cen) - a.rad - b.rad > eps) continue;
+            if (triPair(a, b, eps) != 0) return true;
+        }
+    }
+    return false;
+}
 inline LD winding(const WMesh& M, const V3& x) {
     LD tot = 0;
     for (const Tri& q : M.t) {
